@@ -224,7 +224,7 @@ def gen_registry(crate):
 
 class Harness:
     def __init__(self, crate, name, timeout_s=600, mem_gb=8, stubbing=False, covers_required=True,
-                 extra_args=None, note="", witnesses=False):
+                 extra_args=None, note="", witnesses=False, optional=False):
         self.crate, self.path = crate, name
         self.name = name.split("::")[-1]
         self.timeout_s, self.mem_gb = timeout_s, mem_gb
@@ -232,6 +232,10 @@ class Harness:
         self.covers_required = covers_required
         self.extra_args = extra_args or []
         self.note = note
+        # optional: a harness of the thorough tier that is known to sit at the edge of this machine.  If it runs out of
+        # time or memory it is reported as NOT EXPLORED (evidence, stdout) and does not change the exit code; a
+        # counterexample, a vacuous pass or a non-reproducing counterexample of an optional harness count like any other.
+        self.optional = optional
         self.witnesses = witnesses   # also ask the solver for concrete inputs of satisfied covers (costly on big harnesses)
 
 
@@ -371,9 +375,13 @@ def _run_kani(h, slot, logdir, playback, suffix="", scale=1):
         elif not real and "unwinding failures" in text:
             r["status"] = "inconclusive"
             r["reason"] = "unwinding assertion failed: loop bound of the harness too small"
+        elif not real and "run out of memory" in text:
+            r["status"] = "inconclusive"
+            r["reason"] = "CBMC ran out of memory"
+            r["killed"] = "memory"
         elif not real:
             r["status"] = "inconclusive"
-            r["reason"] = "FAILED without a failed check (cover-only failure, CBMC out of memory or CBMC error)"
+            r["reason"] = "FAILED without a failed check (cover-only failure or CBMC error)"
         else:
             r["status"] = "failed"
     return r
@@ -532,10 +540,16 @@ def run_property(prop, tier, harnesses, meta, jobs=None, pre=None):
     known = load_known(prop)
     violations, inconclusive, known_hits = [], [], []
     replays_ok = 0
+    opt = {h.name for h in harnesses if h.optional}
+    not_explored = []
     for r in results:
         if r["status"] == "pass":
             continue
         if r["status"] == "inconclusive":
+            if r["harness"] in opt and (r.get("killed") or "out of memory" in (r.get("reason") or "")):
+                not_explored.append(f"{r['harness']}: {r.get('reason')}")
+                log(f"NOT-EXPLORED property={prop} {r['harness']}: {r.get('reason')} (optional harness; does not affect the verdict)")
+                continue
             inconclusive.append(f"{r['harness']}: {r.get('reason')}")
             continue
         # failed: extract + replay
@@ -585,7 +599,7 @@ def run_property(prop, tier, harnesses, meta, jobs=None, pre=None):
             r["witnesses"] = decode_cover_witnesses(prop, r, limit=min(3, budget))
             budget -= len(r["witnesses"])
     wall = time.time() - t0
-    write_evidence(prop, tier, seed, meta, results, wall, len(violations), pre_info, inconclusive, replays_ok, known_hits)
+    write_evidence(prop, tier, seed, meta, results, wall, len(violations), pre_info, inconclusive, replays_ok, known_hits, not_explored)
     if violations:
         return 1
     if inconclusive:
@@ -594,7 +608,7 @@ def run_property(prop, tier, harnesses, meta, jobs=None, pre=None):
     return 0
 
 
-def write_evidence(prop, tier, seed, meta, results, wall, nviol, pre_info, inconclusive=None, replays_ok=0, known_hits=None):
+def write_evidence(prop, tier, seed, meta, results, wall, nviol, pre_info, inconclusive=None, replays_ok=0, known_hits=None, not_explored=None):
     passed = [r for r in results if r["status"] == "pass"]
     queries = sum(r["checks_total"] + len(r["covers"]) for r in results)
     # a non-trivial case = a (harness, reachability witness) pair whose witness the solver SATISFIED in a harness that ended
@@ -637,6 +651,7 @@ def write_evidence(prop, tier, seed, meta, results, wall, nviol, pre_info, incon
         "solver_time_s": round(sum(r["solver_s"] for r in results), 1),
         "symex_time_s": round(sum((r["symex_s"] or 0) for r in results), 1),
         "inconclusive": inconclusive or [],
+        "not_explored": not_explored or [],
         "counterexamples_replayed_natively": replays_ok,
         "traces_validated_against_impl": replays_ok + sum(1 for r in results for w in (r.get("witnesses") or {}).values() if w.get("native_cover_hit")),
         "known_findings_matched": [k["what"] for _, kh in (known_hits or []) for k in kh],
